@@ -1,40 +1,31 @@
 // Harness for C15: drives the real internal/toposort.Graph with generated operation sequences and
 // records everything it returns.
+//
+// Nodes are integers in the trace (and in the Gallina model); the strings given to the Go code come
+// from a per-case name table (names.go): either fixed-width decimal names (string order = integer
+// order) or an arbitrary table of distinct byte strings written into the trace as (names ...); the
+// driver then runs the model on the RANKS of the names in plain byte order.
+// Large graphs (scale.go) use run-length encoded bulk operations (addnodes / addedges / rmedges).
 package main
 
 import (
 	"fmt"
+	"os"
 	"sort"
-	"strconv"
+	"time"
 
 	"gopkg.in/src-d/hercules.v10/verifapi"
 	. "verifharness/lib"
 )
 
-func name(i int) string { return fmt.Sprintf("n%05d", i) }
-
-func unname(s string) int {
-	if s == "" {
-		return -1
-	}
-	i, err := strconv.Atoi(s[1:])
-	if err != nil {
-		panic(err)
-	}
-	return i
-}
-
-func unnames(l []string) []int {
-	r := make([]int, len(l))
-	for i, s := range l {
-		r[i] = unname(s)
-	}
-	return r
-}
-
 type op struct {
 	kind string
 	a, b int
+	x    []int // parameters of a bulk operation
+}
+
+func isBulk(kind string) bool {
+	return kind == "addnodes" || kind == "addedges" || kind == "rmedges" || kind == "reindexes"
 }
 
 func (o op) sx() Sx {
@@ -43,6 +34,12 @@ func (o op) sx() Sx {
 		return T(o.kind, I(o.a), I(o.b))
 	case "sort":
 		return T(o.kind)
+	case "addnodes", "addedges", "rmedges", "reindexes":
+		xs := make([]Sx, len(o.x))
+		for i, v := range o.x {
+			xs[i] = I(v)
+		}
+		return T(o.kind, xs...)
 	default:
 		return T(o.kind, I(o.a))
 	}
@@ -51,6 +48,12 @@ func (o op) sx() Sx {
 func parseOp(s Sx) op {
 	o := op{kind: s.Tag()}
 	args := s.Args()
+	if isBulk(o.kind) {
+		for _, a := range args {
+			o.x = append(o.x, a.Int())
+		}
+		return o
+	}
 	if len(args) > 0 {
 		o.a = args[0].Int()
 	}
@@ -60,8 +63,36 @@ func parseOp(s Sx) op {
 	return o
 }
 
+// bulk operations (run-length encoding of regular insertion patterns; the driver expands them with the
+// same three-line loop):
+//   (addnodes from count step mod)      AddNode(wrap(from + i*step))                        i < count
+//   (addedges a b count sa sb mod)      AddEdge(wrap(a + i*sa), wrap(b + i*sb))             i < count
+//   (rmedges  a b count sa sb mod)      RemoveEdge(wrap(a + i*sa), wrap(b + i*sb))          i < count
+//   (reindexes from count step mod)     ReindexNode(wrap(from + i*step))                    i < count
+// wrap(v) = v mod `mod` when mod > 0, v otherwise.  Observation: (agg <number of true results>) for
+// addnodes / rmedges, (agg <sum of the returned in-degrees>) for addedges.
+func wrap(v, mod int) int {
+	if mod > 0 {
+		return v % mod
+	}
+	return v
+}
+
+func addNodes(from, count, step, mod int) op {
+	return op{kind: "addnodes", x: []int{from, count, step, mod}}
+}
+func addEdges(a, b, count, sa, sb, mod int) op {
+	return op{kind: "addedges", x: []int{a, b, count, sa, sb, mod}}
+}
+func rmEdges(a, b, count, sa, sb, mod int) op {
+	return op{kind: "rmedges", x: []int{a, b, count, sa, sb, mod}}
+}
+func reindexes(from, count, step, mod int) op {
+	return op{kind: "reindexes", x: []int{from, count, step, mod}}
+}
+
 // sortOnCopy runs Toposort on a fresh copy (Toposort consumes the graph).
-func sortOnCopy(g *verifapi.Graph) Sx {
+func sortOnCopy(g *verifapi.Graph, nm *namer) Sx {
 	var l []string
 	var ok bool
 	msg, p := Catch(func() { l, ok = g.Copy().Toposort() })
@@ -69,30 +100,70 @@ func sortOnCopy(g *verifapi.Graph) Sx {
 		_ = msg
 		return T("panic")
 	}
-	return T("sorted", B(ok), Ints(unnames(l)))
+	return T("sorted", B(ok), Ints(nm.uns(l)))
 }
 
 // apply one mutating operation; ok=false for queries
-func apply(g *verifapi.Graph, o op) (Sx, bool) {
+func apply(g *verifapi.Graph, nm *namer, o op) (Sx, bool) {
 	switch o.kind {
 	case "addnode":
-		return T("b", B(g.AddNode(name(o.a)))), true
+		return T("b", B(g.AddNode(nm.of(o.a)))), true
 	case "addedge":
-		return T("i", I(g.AddEdge(name(o.a), name(o.b)))), true
+		return T("i", I(g.AddEdge(nm.of(o.a), nm.of(o.b)))), true
 	case "rmedge":
-		return T("b", B(g.RemoveEdge(name(o.a), name(o.b)))), true
+		return T("b", B(g.RemoveEdge(nm.of(o.a), nm.of(o.b)))), true
 	case "reindex":
-		g.ReindexNode(name(o.a))
+		g.ReindexNode(nm.of(o.a))
 		return T("u"), true
+	case "addnodes":
+		from, count, step, mod := o.x[0], o.x[1], o.x[2], o.x[3]
+		agg := 0
+		for i := 0; i < count; i++ {
+			if g.AddNode(nm.of(wrap(from+i*step, mod))) {
+				agg++
+			}
+		}
+		return T("agg", I(agg)), true
+	case "reindexes":
+		from, count, step, mod := o.x[0], o.x[1], o.x[2], o.x[3]
+		for i := 0; i < count; i++ {
+			g.ReindexNode(nm.of(wrap(from+i*step, mod)))
+		}
+		return T("u"), true
+	case "addedges", "rmedges":
+		a, b, count, sa, sb, mod := o.x[0], o.x[1], o.x[2], o.x[3], o.x[4], o.x[5]
+		agg := 0
+		for i := 0; i < count; i++ {
+			from, to := nm.of(wrap(a+i*sa, mod)), nm.of(wrap(b+i*sb, mod))
+			if o.kind == "addedges" {
+				agg += g.AddEdge(from, to)
+			} else if g.RemoveEdge(from, to) {
+				agg++
+			}
+		}
+		return T("agg", I(agg)), true
 	}
 	return Sx{}, false
 }
 
-func runCase(ops []op) (obs []Sx) {
+func runCase(nm *namer, ops []op) (obs []Sx) {
 	g := verifapi.NewGraph()
+	// repetitions of every Sort: 5 copies + 3 rebuilt graphs; 3 copies + 1 rebuilt graph for the very large cases
+	copies, rebuilds, size := 4, 3, 0
+	for _, o := range ops {
+		switch o.kind {
+		case "addnodes":
+			size += o.x[1]
+		case "addedges":
+			size += o.x[2]
+		}
+	}
+	if size > 15000 {
+		copies, rebuilds = 2, 1
+	}
 	var prefix []op // the mutating operations so far
 	for _, o := range ops {
-		if r, ok := apply(g, o); ok {
+		if r, ok := apply(g, nm, o); ok {
 			obs = append(obs, r)
 			prefix = append(prefix, o)
 			continue
@@ -101,36 +172,37 @@ func runCase(ops []op) (obs []Sx) {
 		case "sort":
 			// several runs on independent copies: Go randomises map iteration per range loop, so a
 			// dependence on map order shows up as differing answers
-			first := sortOnCopy(g)
+			first := sortOnCopy(g, nm)
+			firstS := first.String()
 			res := first
-			for k := 0; k < 4; k++ {
-				again := sortOnCopy(g)
-				if again.String() != first.String() {
+			for k := 0; k < copies; k++ {
+				again := sortOnCopy(g, nm)
+				if again.String() != firstS {
 					res = T("nondet", first, again)
 					break
 				}
 			}
 			// "equal inputs give equal orders": rebuild the graph from the same operation sequence
 			// (AddEdge / ReindexNode iterate maps too) and sort again
-			for k := 0; k < 3 && res.Tag() != "nondet"; k++ {
+			for k := 0; k < rebuilds && res.Tag() != "nondet"; k++ {
 				g2 := verifapi.NewGraph()
 				for _, p := range prefix {
-					apply(g2, p)
+					apply(g2, nm, p)
 				}
-				again := sortOnCopy(g2)
-				if again.String() != first.String() {
+				again := sortOnCopy(g2, nm)
+				if again.String() != firstS {
 					res = T("nondet", first, again)
 				}
 			}
 			obs = append(obs, res)
 		case "children":
-			obs = append(obs, T("l", Ints(unnames(g.FindChildren(name(o.a))))))
+			obs = append(obs, T("l", Ints(nm.uns(g.FindChildren(nm.of(o.a))))))
 		case "parents":
-			ps := unnames(g.FindParents(name(o.a)))
+			ps := nm.uns(g.FindParents(nm.of(o.a)))
 			sort.Ints(ps)
 			obs = append(obs, T("l", Ints(ps)))
 		case "cycle":
-			obs = append(obs, T("cycle", Ints(unnames(g.FindCycle(name(o.a))))))
+			obs = append(obs, T("cycle", Ints(nm.uns(g.FindCycle(nm.of(o.a))))))
 		default:
 			panic("unknown op " + o.kind)
 		}
@@ -138,20 +210,30 @@ func runCase(ops []op) (obs []Sx) {
 	return
 }
 
-func emit(c *Config, kind string, ops []op) {
-	obs := runCase(ops)
+func emit(c *Config, kind string, nm *namer, ops []op) {
+	if nm == nil {
+		nm = fixedNames(5)
+	}
+	obs := runCase(nm, ops)
 	sops := make([]Sx, len(ops))
 	nodes, edges := 0, 0
 	for i, o := range ops {
 		sops[i] = o.sx()
-		if o.kind == "addnode" {
+		switch o.kind {
+		case "addnode":
 			nodes++
-		}
-		if o.kind == "addedge" {
+		case "addedge":
 			edges++
+		case "addnodes":
+			nodes += o.x[1]
+		case "addedges":
+			edges += o.x[2]
 		}
 	}
-	c.Emit(T("kind", A(kind)), T("nt", B(nodes >= 2 && edges >= 1)), T("ops", sops...), T("obs", obs...))
+	fields := []Sx{T("kind", A(kind)), T("nt", B(nodes >= 2 && edges >= 1))}
+	fields = append(fields, nm.fields()...)
+	fields = append(fields, T("ops", sops...), T("obs", obs...))
+	c.Emit(fields...)
 }
 
 // queries appended after a graph has been built
@@ -169,7 +251,10 @@ func queries(n int, all bool, c *Config) []op {
 	return ops
 }
 
-func exhaustive(c *Config, n int, selfLoops bool) {
+// exhaustive: every digraph on n nodes in two insertion orders.  adversarial=false: fixed-width names
+// (string order = integer order, so the two insertion orders are "ascending" and "descending" with
+// respect to the name order); adversarial=true: the same enumeration under a drawn name table.
+func exhaustive(c *Config, n int, selfLoops bool, adversarial bool) {
 	var pairs [][2]int
 	for a := 0; a < n; a++ {
 		for b := 0; b < n; b++ {
@@ -203,12 +288,16 @@ func exhaustive(c *Config, n int, selfLoops bool) {
 				ops = append(ops, op{kind: "addedge", a: e[0], b: e[1]})
 			}
 			ops = append(ops, queries(n, true, c)...)
-			emit(c, fmt.Sprintf("ex%d", n), ops)
+			if adversarial {
+				emit(c, fmt.Sprintf("ex%dnames", n), tableNames(drawTable(c.Rng, n)), ops)
+			} else {
+				emit(c, fmt.Sprintf("ex%d", n), nil, ops)
+			}
 		}
 	}
 }
 
-func randomGraph(c *Config, maxNodes int, acyclicBias bool) []op {
+func randomGraph(c *Config, maxNodes int, acyclicBias bool) ([]op, int) {
 	r := c.Rng
 	n := 1 + r.Intn(maxNodes)
 	perm := r.Perm(n)
@@ -294,12 +383,12 @@ func randomGraph(c *Config, maxNodes int, acyclicBias bool) []op {
 		}
 		ops = append(ops, queries(n, false, c)...)
 	}
-	return ops
+	return ops, n
 }
 
 // malformed: duplicate nodes and edges, unknown endpoints, removals of absent edges,
-// sorting without re-indexing
-func malformed(c *Config) []op {
+// sorting without re-indexing.  Node indices 0..n.
+func malformed(c *Config) ([]op, int) {
 	r := c.Rng
 	n := 2 + r.Intn(5)
 	var ops []op
@@ -319,7 +408,75 @@ func malformed(c *Config) []op {
 		}
 	}
 	ops = append(ops, op{kind: "sort"})
-	return ops
+	return ops, n + 1
+}
+
+// nameCase: a small graph whose ROOT LIST and whose RE-INDEXED CHILD LISTS hold many names of one
+// confusable family at once (the two places where toposort.go sorts strings): several roots, one or two
+// hubs with many children, a removal, optionally a new edge, ReindexNode, Sort, FindChildren.
+func nameCase(c *Config) ([]op, *namer) {
+	r := c.Rng
+	n := 3 + r.Intn(12)
+	nm := tableNames(drawConfusable(r, n))
+	perm := r.Perm(n)
+	var ops []op
+	for _, k := range perm {
+		ops = append(ops, op{kind: "addnode", a: k})
+	}
+	type e struct{ a, b int }
+	have := map[e]bool{}
+	pos := make([]int, n) // position in the insertion order: edges go forward in it (acyclic)
+	for i, k := range perm {
+		pos[k] = i
+	}
+	add := func(a, b int) {
+		if a != b && !have[e{a, b}] && pos[a] < pos[b] {
+			have[e{a, b}] = true
+			ops = append(ops, op{kind: "addedge", a: a, b: b})
+		}
+	}
+	hubs := r.Intn(3)
+	if hubs > n/3 {
+		hubs = n / 3
+	}
+	for h := 0; h < hubs; h++ {
+		hub := perm[h]
+		var children []int
+		for _, k := range r.Perm(n) {
+			if pos[k] > pos[hub] && r.Intn(4) != 0 {
+				add(hub, k)
+				if have[e{hub, k}] {
+					children = append(children, k)
+				}
+			}
+		}
+		if len(children) >= 2 && r.Intn(4) != 0 {
+			// removal of one or two children, perhaps a new edge, then the re-index
+			rm := 1 + r.Intn(2)
+			for j := 0; j < rm && j < len(children)-1; j++ {
+				ops = append(ops, op{kind: "rmedge", a: hub, b: children[j]})
+				delete(have, e{hub, children[j]})
+			}
+			if r.Intn(2) == 0 {
+				add(hub, children[0])
+			}
+			ops = append(ops, op{kind: "reindex", a: hub})
+		}
+		ops = append(ops, op{kind: "children", a: hub})
+	}
+	for j := r.Intn(n); j > 0; j-- {
+		add(r.Intn(n), r.Intn(n))
+	}
+	ops = append(ops, op{kind: "sort"})
+	if r.Intn(3) == 0 {
+		// close a cycle and look for it
+		a, b := perm[n-1], perm[0]
+		if !have[e{a, b}] {
+			ops = append(ops, op{kind: "addedge", a: a, b: b})
+		}
+		ops = append(ops, op{kind: "sort"}, op{kind: "cycle", a: b}, op{kind: "cycle", a: perm[n/2]})
+	}
+	return ops, nm
 }
 
 func main() {
@@ -332,25 +489,58 @@ func main() {
 			for _, o := range f.Args() {
 				ops = append(ops, parseOp(o))
 			}
-			emit(c, "replay", ops)
+			emit(c, "replay", namerOfCase(cs), ops)
 		}
 		return
 	}
-	exhaustive(c, 1, true)
-	exhaustive(c, 2, true)
-	exhaustive(c, 3, true)
+	t0 := time.Now()
+	phase := func(what string) {
+		if os.Getenv("C15_TIMING") != "" {
+			fmt.Fprintf(os.Stderr, "phase %s %v\n", what, time.Since(t0))
+		}
+		t0 = time.Now()
+	}
+	exhaustive(c, 1, true, false)
+	exhaustive(c, 2, true, false)
+	exhaustive(c, 3, true, false)
 	if c.Thorough() {
-		exhaustive(c, 4, true)
+		exhaustive(c, 4, true, false)
 	} else {
-		exhaustive(c, 4, false)
+		exhaustive(c, 4, false, false)
+	}
+	phase("exhaustive")
+	exhaustive(c, 2, true, true)
+	exhaustive(c, 3, true, true)
+	phase("exhaustive-names")
+	// three quarters of the random cases run under a drawn name table, one quarter under fixed-width names
+	pick := func(n int) *namer {
+		if c.Rng.Intn(4) == 0 {
+			return nil
+		}
+		return tableNames(drawTable(c.Rng, n))
 	}
 	for i := c.Count(3000, 100000); i > 0; i-- {
-		emit(c, "rnd", randomGraph(c, 30, false))
+		ops, n := randomGraph(c, 30, false)
+		emit(c, "rnd", pick(n), ops)
 	}
+	phase("rnd")
 	for i := c.Count(2000, 100000); i > 0; i-- {
-		emit(c, "dag", randomGraph(c, 30, true))
+		ops, n := randomGraph(c, 30, true)
+		emit(c, "dag", pick(n), ops)
 	}
+	phase("dag")
 	for i := c.Count(1500, 50000); i > 0; i-- {
-		emit(c, "malformed", malformed(c))
+		ops, n := malformed(c)
+		emit(c, "malformed", pick(n), ops)
 	}
+	phase("malformed")
+	for i := c.Count(2500, 100000); i > 0; i-- {
+		ops, nm := nameCase(c)
+		emit(c, "names", nm, ops)
+	}
+	phase("names")
+	if c.Tier != "search" {
+		scale(c)
+	}
+	phase("scale")
 }
